@@ -692,6 +692,7 @@ func TestC12(t *testing.T) {
 		}
 	})
 	holepunchPart(t, r)
+	hostPart(t, r)
 	r.Require("waiter_registrations", 200)
 	r.Require("events_placed_before_registration", 50)
 	r.Require("waiters_served_by_a_late_direct_conn", 100)
